@@ -373,6 +373,11 @@ def run_C10(tier, seed):
     ro, _ = stages.pick_scenarios("recover", tier, seed, lambda s: s["expect"]["verify"] == "ok" and s["sc"]["mode"] == "RecoverOnly" and nm_of(s) <= 16
                                   and any(m["v"]["seed"] != 0 for m in s["sc"]["members"]), 10 if q else 100, prop="C10")
     res.append(stages.trace_stage("C10", "recover-only", ro, seed, module="TraceVerify", calls="verify"))
+    # beyond the chunk limit: both recovering modes return the same, aligned masks (right seed, wrong seed, no seed in any order)
+    big = stages.api_stage("C10", "recover", tier, seed, groups=("rist",), scale="2:256", scale_min=0, limit=30 if q else 400,
+                           filter_fn=lambda s: len(s["sc"]["members"]) >= 2 and s["sc"]["mode"] != "VerifyOnly" and s["expect"]["verify"] == "ok" and bool(s["sc"]["fill"]))
+    big.name = "api:recover@256"
+    res.append(big)
     return res
 
 
